@@ -208,7 +208,8 @@ func optionMenu() map[string][]string {
 	m["trim_path"] = []string{"/src", ":", "::", "/", ""}
 	m["source_path"] = m["trim_path"]
 	m["add_comment"] = []string{"x", "a\nb"}
-	m["symbolize"] = []string{"none", "bogus", "demangle=bogus", "local:remote:force", ":", ""}
+	m["symbolize"] = []string{"none", "bogus", "demangle=bogus", "local:remote:force", ":", "", "demangle=default", "demangle=none", "demangle=full", "demangle=templates",
+		"local:demangle=default", "demangle=full:demangle=default", "fastlocal", "remote", "force:demangle=templates", "DEMANGLE=DEFAULT", "default"}
 	m["buildid"] = []string{"a", "", "zz"}
 	for _, b := range []string{"mean", "call_tree", "drop_negative", "relative_percentages", "compact_labels", "noinlines", "showcolumns", "trim", "normalize", "intel_syntax"} {
 		m[b] = []string{"true", "false"}
@@ -232,6 +233,16 @@ func runOne(c *vk.Ctx, w witness, data []byte, cmd []string, opts []string, obj 
 	fl := drive.MkFlags([]string{"p"}, append(append([]string{}, cmd...), opts...)...)
 	// options given as name=value where the driver declares a typed flag must go to the right map
 	s := &drive.Session{Fetch: &drive.Fetcher{Data: map[string][]byte{"p": data}}, Flags: fl, Obj: obj}
+	for _, o := range opts {
+		if strings.HasPrefix(o, "symbolize=") {
+			// pprof's own symbolizer (mode parsing, local symbolization through a fake object tool,
+			// remote symbolization against a transport that refuses, demangling)
+			s.RealSym = true
+			if obj == nil {
+				s.Obj = drive.FakeObj{}
+			}
+		}
+	}
 	r := drive.Run(s)
 	if r.Panic != nil {
 		c.Violationf("panic/"+class, w, "%v\n%s", r.Panic, r.Stack)
@@ -315,7 +326,11 @@ func Run(c *vk.Ctx) {
 					}
 				}
 				fl := drive.MkFlags(args, append([]string{"top"}, opts...)...)
-				r := drive.Run(&drive.Session{Fetch: &drive.Fetcher{Data: map[string][]byte{"p": data}}, Flags: fl, Obj: drive.FakeObj{}})
+				realSym := false
+				for _, x := range opts {
+					realSym = realSym || strings.HasPrefix(x, "symbolize=")
+				}
+				r := drive.Run(&drive.Session{Fetch: &drive.Fetcher{Data: map[string][]byte{"p": data}}, Flags: fl, Obj: drive.FakeObj{}, RealSym: realSym})
 				if r.Panic != nil {
 					c.Violationf("panic/"+class, w, "%v\n%s", r.Panic, r.Stack)
 				}
